@@ -1,7 +1,7 @@
 #!/usr/bin/env python3
 """C20 — no input can corrupt memory in any program of the suite.   (proof, PARTIAL — see notes/C20.md)
 
-Ten harness binaries (six sources) feed one compiled Lean driver (drv_c20):
+Eleven harness binaries (seven sources) feed one compiled Lean driver (drv_c20):
   harness/c20_lib.c    gen_allocdefs.h / stralloc_*.c / quote.c doit() / substdo.c / substdi.c   vs Nq.Stralloc, Nq.Substdio
   harness/c20_dns.c    dns.c resolve/findname/findip/findmx/dns_ip/dns_mxip/dns_ptr (interposed resolver, poisoned
                        buffer tail)                                                              vs Nq.Dns
@@ -10,9 +10,13 @@ Ten harness binaries (six sources) feed one compiled Lean driver (drv_c20):
   harness/c20_fixed.c  qmail-qmqpd getbuf(), qmail-qmtpd main() sender/recipient, qmail-getpw userext(), qmail.c qmail_errstr(),
                        quote.c quote_need(): which bytes of the fixed buffers are stored to / read                vs Nq.FixedBuf
   harness/c20_report.c report() of qmail-rspawn.c / qmail-lspawn.c on exact-size child output           vs Nq.Spawn.reportBody
+  harness/c20_ctl.c    HISTORIES of control-file edits / faults / SIGHUP re-reads / routed recipients through the real
+                       getcontrols(), reread()+regetcontrols(), rewrite(), stripvdomprepend() of qmail-send.c (control.c,
+                       constmap.c): use after free / stale lookup tables across re-reads
   harness/c20_prog.c   the real sanitised binaries qmail-smtpd/-qmtpd/-qmqpd/-pop3d/-popup/-inject/-local as child
                        processes on hostile streams (every truncation point, extreme declared lengths, thousands of
-                       tokens, deep nesting)
+                       tokens, deep nesting); qmail-local both with -n and in real delivery mode over a .qmail grammar,
+                       qmail-inject both with -n and really queueing through a stand-in qmail-queue
 The theorems (length/index arithmetic) are in lean/Nq/Props/C20.lean."""
 import os, sys, re, json, random, concurrent.futures
 sys.path.insert(0, os.path.join(os.path.dirname(os.path.abspath(__file__)), "..", "tools"))
@@ -21,8 +25,8 @@ from nqlib import Check, VERIF, NCPU, sh, run_pipeline, parse_driver_output, sta
 
 PROP = "C20"
 PROGS = "qmail-smtpd qmail-qmtpd qmail-qmqpd qmail-pop3d qmail-popup qmail-inject qmail-local"
-ARGS = {"quick": dict(level=1, nlib=16000, ndns=48000, nparse=20000, nprog=3000, nrep=20000),
-        "thorough": dict(level=2, nlib=400000, ndns=600000, nparse=160000, nprog=24000, nrep=200000)}
+ARGS = {"quick": dict(level=1, nlib=16000, ndns=48000, nparse=20000, nprog=3000, nrep=20000, nctl=3000),
+        "thorough": dict(level=2, nlib=400000, ndns=600000, nparse=160000, nprog=24000, nrep=200000, nctl=40000)}
 ASAN = "detect_leaks=0:allocator_may_return_null=1"
 
 RULE = ("(1) c20_lib: gen_alloc ready/readyplus for EVERY pair of 40 edge values of (len|a, n) in 0..2^32-1 (1, 8, 16, 24-byte elements; null and non-null "
@@ -44,7 +48,16 @@ RULE = ("(1) c20_lib: gen_alloc ready/readyplus for EVERY pair of 40 edge values
         "32-byte buffer, qmail_errstr() with 0..300 (..60000) bytes on the error descriptor, quote_need() on 0..120(400) bytes: set of indices stored / read compared with Nq.FixedBuf. "
         "(4) c20_prog: the real sanitised binaries as child processes: every truncation point of valid SMTP/QMTP/QMQP/POP3/popup sessions, declared netstring lengths "
         "up to 2^31, 2^32, 2^64 and beyond followed by EOF, address lengths around every buffer size, thousands of recipients/tokens/commands, comment nesting to 50000, "
-        "hostile .qmail files, %(nprog)s random mutations. "
+        "hostile .qmail files, %(nprog)s random mutations; qmail-local runs every .qmail case twice: with -n and in REAL delivery mode (message on a regular file, private home "
+        "with a Maildir, '|' lines through /bin/sh with PATH=/nonexistent, forwards through a stand-in qmail-queue, uid 65534 when root), plus a .qmail grammar: every first byte "
+        "0..255 x {empty, address, blanks, blank+address} x {final newline, none} as a one-line file, 24 first bytes x 4 remainders in every position of 2..6-line files "
+        "among harmless lines, 1..6 lines of the same shape, long lines around the 256-byte slurp buffer; qmail-inject also without -n (really queueing). "
+        "(5) c20_ctl: histories of a running qmail-send in-process (real getcontrols / reread+regetcontrols / rewrite / stripvdomprepend, control.c, constmap.c): start-up, then "
+        "0..2 successful re-reads and a re-read that fails at one of 9 points (open or k-th read of locals / virtualdomains, errno EACCES/EISDIR/EIO/ELOOP), x 8(12) size "
+        "sequences of the two files (growing / shrinking / equal; 1, 3, 12, 140 lines, one key x 3000, a 5000-byte comment, lines of 29..4000 bytes, no final newline, file "
+        "removed -> falls back to me) x 4 continuations (none / good re-read / second failing re-read / restart), faults at every file during start-up, read chunk 0/5/7/13/64; "
+        "after every step recipients matching entries of EVERY earlier and the current configuration are routed; %(nctl)s seeded random histories of 2..7 steps. Oracle: no "
+        "sanitizer report (use after free of a reallocated scratch buffer), and every answer equals that of a fresh process started on the configuration in force. "
         "Compared with the Lean models (DISAGREE); the oracle is the bounds/stream predicate of the theorems evaluated on the implementation's numbers, plus: no "
         "sanitizer report, no signal, no hang, exit status in the documented set. Non-trivial = distinct case (input part of the line).")
 
@@ -154,6 +167,8 @@ def main():
                 fd = ex.submit(s.cc, os.path.join(VERIF, "harness/c20_dns.c"), os.path.join(s.dir, "h_c20_dns"), "qmail-remote", "", "", ["dns.o"])
                 fp = ex.submit(s.cc, os.path.join(VERIF, "harness/c20_parse.c"), os.path.join(s.dir, "h_c20_parse"), None, parse_objs)
                 fr = ex.submit(s.cc, os.path.join(VERIF, "harness/c20_prog.c"), os.path.join(s.dir, "h_c20_prog"))
+                fc = ex.submit(s.cc, os.path.join(VERIF, "harness/c20_ctl.c"), os.path.join(s.dir, "h_c20_ctl"), "qmail-send", "", "",
+                               ["control.o", "constmap.o", "auto_qmail.o", "qsutil.o"])
                 frr = ex.submit(s.cc, os.path.join(VERIF, "harness/c20_report.c"), os.path.join(s.dir, "h_c20_rep_r"), "qmail-rspawn", "", "-DRSPAWN", ["spawn.o"])
                 frl = ex.submit(s.cc, os.path.join(VERIF, "harness/c20_report.c"), os.path.join(s.dir, "h_c20_rep_l"), "qmail-lspawn", "", "-DLSPAWN", ["spawn.o"])
                 fxs = [ex.submit(s.cc, os.path.join(VERIF, "harness/c20_fixed.c"), os.path.join(s.dir, "h_c20_fx_" + n), like, "", "-DFX_" + n.upper(), excl)
@@ -161,6 +176,7 @@ def main():
                                              ("getpw", "qmail-getpw", []), ("qq", "qmail-inject", ["qmail.o"]))]
                 hl, hd, hp, hr, hrr, hrl = fl.result(), fd.result(), fp.result(), fr.result(), frr.result(), frl.result()
                 hfx = [x.result() for x in fxs]
+                hc = fc.result()
             drv = driver_path("drv_c20")
             phase["harness_build_s"] = round(time.time() - t2, 1)
 
@@ -170,7 +186,7 @@ def main():
 
             def all_on(path):
                 return group(["%s - < %s" % (hl, path), "%s - < %s" % (hd, path), "%s %s - < %s" % (hp, work, path),
-                              "%s - < %s" % (hrr, path), "%s - < %s" % (hrl, path)] + ["%s %s - < %s" % (x, work, path) for x in hfx] + [
+                              "%s - < %s" % (hrr, path), "%s - < %s" % (hrl, path), "%s %s - < %s" % (hc, work, path)] + ["%s %s - < %s" % (x, work, path) for x in hfx] + [
                               "%s %s %s %s - < %s" % (hr, s.dir, qhome, work, path)])
 
             def shard(i):
@@ -178,7 +194,8 @@ def main():
                               "%s %d %d %d %d %d" % (hd, a["level"], a["ndns"], c.seed, i, NCPU),
                               "%s %s %d %d %d %d %d" % (hp, work, a["level"], a["nparse"], c.seed, i, NCPU),
                               "%s %d %d %d %d %d" % (hrr, a["level"] + 4, a["nrep"], c.seed, i, NCPU),
-                              "%s %d %d %d %d %d" % (hrl, a["level"] + 4, a["nrep"], c.seed, i, NCPU)] +
+                              "%s %d %d %d %d %d" % (hrl, a["level"] + 4, a["nrep"], c.seed, i, NCPU),
+                              "%s %s %d %d %d %d %d" % (hc, work, a["level"], a["nctl"], c.seed, i, NCPU)] +
                              ["%s %s %d %d %d %d" % (x, work, a["level"], c.seed, i, NCPU) for x in hfx] + [
                               "%s %s %s %s %d %d %d %d %d" % (hr, s.dir, qhome, work, a["level"], a["nprog"], c.seed, i, NCPU)])
 
@@ -255,7 +272,7 @@ def main():
         "quote.c doit()/quote_need() (all lengths; counter types read from the source), substdio put/bput/flush/putflush/feed/get with the stream laws, the fixed buffers of qmail-qmqpd, "
         "qmail-qmtpd, qmail-getpw, qmail.c errstr, spawn.c slots/truncation, qmail-send REPORTMAX, qmail-pop3d msgno, and dns.c findname/findip/findmx/resolve. "
         "NOT proved: absence of undefined behaviour elsewhere in the compiled C (every parser's own loops, pointer aliasing, signal handlers, libc/libresolv); that part "
-        "is covered only by the sanitised executions counted in 'evaluations' (kinds T.*, P.*, and the ASan/UBSan instrumentation of all kinds) and by the sanitised "
+        "is covered only by the sanitised executions counted in 'evaluations' (kinds T.*, P.*, H = control-file re-read histories of qmail-send, and the ASan/UBSan instrumentation of all kinds) and by the sanitised "
         "harnesses of C01-C19.")
     c.assumptions += [
         "the allocator seen by the code under test is the harness's (exact-size blocks, scripted failures): malloc(0) returns a non-null pointer as in glibc",
@@ -263,7 +280,8 @@ def main():
         "the write/read function behind a substdio returns between 1 and len bytes or -1 (a write returning 0 loops forever by design: 'luser's fault'); substdio_get/getthis are called with len < 2^31 (getthis takes an int)",
         "res_query/res_search return -1 or a length between 12 (HFIXEDSZ) and the buffer size (glibc: shorter datagrams are discarded with EMSGSIZE); dn_expand never reports a name that extends beyond the message (checked on every call the harness logs)",
         "fmt_ulong writes at most 20 digits (64-bit unsigned long)",
-        "whole programs run with control files me/rcpthosts/databytes/localiphost only, a stand-in qmail-queue, a three-message maildir; qmail-send, qmail-remote, qmail-lspawn/rspawn, qmail-clean are exercised by the sanitised harnesses of C03/C04/C09/C11/C14/C18, not here",
+        "whole programs run with control files me/rcpthosts/databytes/localiphost/badmailfrom only (no morercpthosts.cdb, no timeoutsmtpd/smtpgreeting), a stand-in qmail-queue, a three-message maildir; qmail-popup with /bin/true and /bin/false as checkpassword; qmail-remote, qmail-lspawn/rspawn, qmail-clean, qmail-queue, qmail-getpw mains are exercised by the sanitised harnesses of C01-C04/C09/C11/C14/C18, not here; of qmail-send only the control-file surface (getcontrols/regetcontrols/rewrite/stripvdomprepend, in-process, c20_ctl) is run here",
+        "c20_ctl: a failing read of a control file is an open_read() or read() returning -1 with EACCES/EISDIR/EIO/ELOOP (interposed at the two call sites in control.c); out-of-memory during a re-read is not exercised (regetcontrols sleeps and retries)",
         "quote.c doit()/quote_need() use unsigned counters (26e354b; the translator checks the declarations): the 1 GiB input that overflowed the former signed counters is executed in the thorough tier and whenever an obligation is broken, not in the quick tier",
     ]
 
